@@ -215,7 +215,7 @@ class StmtMixin:
             extra = dict(fr.locals)
             for cl in spec_['invariant']:
                 goal = zbool(self.truth(self.spec_eval_in(spec_frame, cl.ast, extra)))
-                self.callsite_obligations.append(('%s:%s:%s' % (kind, label, cl.label), goal, cl.expr, cl.props))
+                self.emit_obligation('%s:%s:%s' % (kind, label, cl.label), goal, cl.expr, cl.props)
 
         label = 'loop[%s]' % ast.unparse(s.iter)
         inv_obligations('invariant-entry')
